@@ -37,11 +37,18 @@ CHECKS = {
     ),
     "C03": dict(
         pkg="c03", level="exploration",
+        pre=[dict(kind="harness_main", repo_dir="libopenwater", pkg="libow", out="libopenwater.so", env="VERIF_LIBOW_SO", flags=["-buildmode=c-shared"]),
+             dict(out="abi-driver", env="VERIF_ABI_DRIVER", cmd=["gcc", "-O1", "-w", "-o", "{out}", "{verif}/cdriver/driver.c", "-ldl"], cwd="{verif}")],
         rule="(a) every generated C01 history / C02 view-operation case executed in lock-step on a Go-backed and a C-backed root (C memory = anonymous mapping outside the Go heap with canaries, in 2/3 of the cases flush against a PROT_NONE page at its end or start): all observations (element reads, Unroll, Shape, Contiguous, errors, whole storage after each step) must be identical and no byte outside the buffer may change. "
-             "Non-trivial = as C01/C02 (write through a depth>=2 stepped view, non-contiguous bulk target, non-contiguous/stepped/reshaped view, mixed contiguity); distinct = distinct case",
-        assumptions=["C int/uint are 32-bit, Go's 64-bit: values are generated in the common range"],
-        quick=dict(stages=[st(3000, timeout=600)]),
-        thorough=dict(stages=[st(25000, shards=16, timeout=2400)]),
+             "(b) RunSingleModel: generated (any catalogued model, 1..6 cells, parameter sets and input blocks equal to / fewer than / coprime with the cell count, T<=30, output buffer exact or larger, initStates true/false, states NULL or not) called in-process with C argument types on guarded buffers, and through the real C ABI (libopenwater.so built with -buildmode=c-shared, loaded by a C driver that places every buffer flush against PROT_NONE pages at its end or start, with canaries): outputs and final states (incl. library-initialised states copied back) bit-identical to the Go API run, inputs and parameters unchanged, no access outside the buffers. "
+             "Non-trivial = (a) as C01/C02; (b) >= 2 cells with fewer parameter or input sets than cells, or initStates with copy-back; distinct = distinct case",
+        assumptions=["C int/uint are 32-bit, Go's 64-bit: values are generated in the common range", "writes through slices returned by Unroll are excluded from the lock-step (C views unroll to copies by design)"],
+        quick=dict(stages=[st(2500, timeout=600),
+                           st(400, pkg="libow", overlay=dict(map_main={"libopenwater": "libow"}), run="TestEntryPointInProcess", timeout=600),
+                           st(150, pkg="libow", overlay=dict(map_main={"libopenwater": "libow"}), run="TestEntryPointThroughCABI", timeout=600)]),
+        thorough=dict(stages=[st(25000, shards=10, timeout=2400),
+                              st(5000, shards=3, pkg="libow", overlay=dict(map_main={"libopenwater": "libow"}), run="TestEntryPointInProcess", timeout=2400),
+                              st(5000, shards=3, pkg="libow", overlay=dict(map_main={"libopenwater": "libow"}), run="TestEntryPointThroughCABI", timeout=2400)]),
     ),
     "C04": dict(
         pkg="c04", level="exploration",
